@@ -227,8 +227,12 @@ func init() {
 		if len(sites) == 0 {
 			return "", fmt.Errorf("no TLSClientConfig/DialTLSContext/TLSHandshakeContext selector found")
 		}
+		fp, err := c12Fingerprint(c)
+		if err != nil {
+			return "", err
+		}
 		var b strings.Builder
-		b.WriteString("import Req.Pool.Tls\n/-! Selector resolution and stack wiring facts for C12 (go/types). -/\nnamespace Generated.C12Facts\nopen Req.Pool.TLS\n\n")
+		b.WriteString("import Req.Pool.Tls\nimport Req.Pool.TlsPaths\n/-! Selector resolution and stack wiring facts for C12 (go/types). -/\nnamespace Generated.C12Facts\nopen Req.Pool.TLS\n\n")
 		b.WriteString("def sites : List Site := [\n")
 		for i, s := range sites {
 			decl := ".stackLocal"
@@ -249,6 +253,14 @@ func init() {
 				sep = ""
 			}
 			fmt.Fprintf(&b, "  ⟨.%s, .%s, %v⟩%s  -- %s:%d\n", w.fn, w.stack, w.same, sep, path.Base(w.pos.Filename), w.pos.Line)
+		}
+		b.WriteString("]\n\n")
+		fmt.Fprintf(&b, "/-- Fields of the client's tls.Config that reach the same field of the utls.Config built by the\nfingerprint handshake (%s:%d, in %s). -/\ndef fpCopied : List FpField := [", path.Base(fp.pos.Filename), fp.pos.Line, fp.fn)
+		for i, f := range fp.copied {
+			if i > 0 {
+				b.WriteString(", ")
+			}
+			b.WriteString("." + f)
 		}
 		b.WriteString("]\n\nend Generated.C12Facts\n")
 		return b.String(), nil
